@@ -58,7 +58,7 @@ def cases(tier):
 
 def plan(tier, seed):
 	nsh = 16 if tier == 'quick' else 64
-	return [('t_cli', dict(tier=tier, shard=s, nshards=nsh)) for s in range(nsh)] + [('t_chunks', dict())]
+	return [('t_cli', dict(tier=tier, shard=s, nshards=nsh)) for s in range(nsh)] + [('t_chunks', dict()), ('t_labels', dict())]
 
 
 def invoke(fx, d, batch, v, tag='out'):
@@ -170,6 +170,47 @@ def t_cli(tier, shard, nshards):
 	return sh
 
 
+def t_labels():
+	"""The label rule on every combination of directory x stem x FASTA extension x gzip extension, through the function both input channels use
+	(positional paths and list-file lines), plus ids/files pairing and order."""
+	import io
+	from gambit.cli.common import get_sequence_files
+	sh = Shard()
+	dirs = ['', 'd/', 'a.b/c.fasta/', '../x/', '/abs/dir.gz/']
+	stems = ['g', 'a.b', 'sample_1.v2', 'fa', '.hidden', 'UP.FASTA', 'x.fastaX', 'gz', 'n-1', 'with space']
+	exts = ['', '.fasta', '.fna', '.ffn', '.faa', '.frn', '.fa', '.txt', '.fas', '.FA']
+	gzs = ['', '.gz']
+	paths = [d + st + e + g for d in dirs for st in stems for e in exts for g in gzs]
+	exp = [R.ref_label(p) for p in paths]
+	for channel in ('explicit', 'listfile'):
+		if channel == 'explicit':
+			ids, files = get_sequence_files(explicit=paths)
+			fpaths = [str(f.path) for f in files]
+			want_paths = [os.path.normpath(p) if False else str(__import__('pathlib').Path(p)) for p in paths]
+		else:
+			ids, files = get_sequence_files(listfile=io.StringIO('\n'.join(paths) + '\n'), listfile_dir='/base/dir')
+			fpaths = [str(f.path) for f in files]
+			want_paths = [str(__import__('pathlib').Path('/base/dir') / p) for p in paths]
+		sh.evals += len(paths)
+		if len(ids) != len(paths) or len(files) != len(paths):
+			sh.violation('label-count', dict(batch=[channel], config=dict(labels='exhaustive')), len(paths), len(ids))
+			continue
+		for p, e, g, fp, wp in zip(paths, exp, ids, fpaths, want_paths):
+			if g != e:
+				sh.violation('label-rule', dict(batch=[p], config=dict(labels=channel)), e, g)
+				break
+			if fp != wp:
+				sh.violation('label-file-pairing', dict(batch=[p], config=dict(labels=channel)), wp, fp)
+				break
+			if e != p.rsplit('/', 1)[-1]:
+				sh.nontrivial += 1
+		if any(f.compression != 'auto' or f.format != 'fasta' for f in files):
+			sh.violation('file-not-auto-compression', dict(batch=[channel], config=dict(labels='exhaustive')), 'fasta/auto', None)
+	sh.count('label_paths', len(paths))
+	sh.sample(dict(family='labels', n=len(paths), example=[paths[37], exp[37]]))
+	return sh
+
+
 def t_chunks():
 	"""Reference chunk size and thread count through the library: a genome's result item does not depend on them nor on the batch."""
 	from gambit.db import ReferenceDatabase
@@ -209,12 +250,14 @@ def t_chunks():
 
 
 def finalize(agg, tier):
-	for c in ('batches_out_of_sorted_order', 'batches_with_repeated_genome', 'non_positional_channel', 'library_chunk_runs'):
+	for c in ('batches_out_of_sorted_order', 'batches_with_repeated_genome', 'non_positional_channel', 'library_chunk_runs', 'label_paths'):
 		agg.require(c, 3)
 
 
 def replay(case, kind=None):
 	sh = Shard()
+	if 'labels' in case['config']:
+		return [v for v in t_labels().violations if v['case'] == case]
 	if 'chunksize' in case['config']:
 		return [v for v in t_chunks().violations if v['case'] == case]
 	with fixtures.workdir('c08r') as d:
